@@ -1860,11 +1860,13 @@ class Pipeline:
             else {pipeline.node_mapping[n] for n in inputs}
         )
         output_nodes: set[PipeFunc] = (
-            # Without explicit outputs: the leaf nodes that (partially) derive from the inputs
+            # Without explicit outputs: the leaf nodes that (partially) derive from the inputs,
+            # and those that need no input at all (their root arguments all have defaults)
             {
                 leaf
                 for leaf in pipeline.leaf_nodes
                 if any(leaf in nx.descendants(pipeline.graph, n) for n in input_nodes)
+                or set(pipeline.root_args(leaf.output_name)) <= set(pipeline.defaults)
             }
             if output_names is None
             else {pipeline.node_mapping[n] for n in output_names}  # type: ignore[misc]
